@@ -176,6 +176,11 @@ func Load(repo string, cfg BuildConfig) (*Program, error) {
 		}
 	}
 	// helpers the reference tree does not know are inlined back (normalize.go)
+	if os.Getenv("VERIF_DEBUG_NORMALIZE") != "" && ref != nil {
+		for _, ff := range freshFunctions(ref, cfg.Name, byPath) {
+			fmt.Fprintln(os.Stderr, "fresh:", ff.obj.FullName())
+		}
+	}
 	if ref != nil && os.Getenv("VERIF_NO_INLINE") == "" && len(freshFunctions(ref, cfg.Name, byPath)) > 0 {
 		ov2, notes := deextract(repo, cfg, ref, overlay, nil)
 		for _, n := range notes {
